@@ -56,6 +56,7 @@ def main():
     names = sorted(os.path.basename(os.path.dirname(p)) for p in glob.glob(ROOT + "/seeded/*/meta.json"))
     if args:
         names = [n for n in names if any(re.search(a, n) for a in args)]
+    names = [n for n in names if "superseded" not in json.load(open(f"{ROOT}/seeded/{n}/meta.json"))]
     q = queue.Queue()
     for n in names:
         q.put(n)
